@@ -106,6 +106,7 @@ type StressObs struct {
 }
 
 type Job struct {
+	Make   *MakeSpec   `json:"make,omitempty"`
 	Lib    *LibSpec    `json:"lib,omitempty"`
 	Stress *StressSpec `json:"stress,omitempty"`
 	ID     int         `json:"id"`
@@ -132,6 +133,7 @@ type Result struct {
 	Iso    *IsoObs    `json:"iso,omitempty"`
 	Stress *StressObs `json:"stress,omitempty"`
 	Lib    *LibObs    `json:"lib,omitempty"`
+	Make   *MakeObs   `json:"make,omitempty"`
 	Errs   []string   `json:"errs,omitempty"`
 }
 
@@ -168,6 +170,8 @@ func childMain(path string) {
 			r = runStress(j.Stress)
 		case "lib":
 			r = runLib(j.Lib)
+		case "make":
+			r = runMake(j.Make)
 		default:
 			r = Result{Status: "error", Msg: "unknown job kind"}
 		}
